@@ -1,0 +1,94 @@
+//go:build verif
+
+// Machine-checked contracts for package twooffive (comment-only; read by /verif/govc).
+package twooffive
+
+// The 3-1 weighted digit sum of the first i bytes of an n-digit string: the digit at distance d
+// from the right end has weight 3 for even d (so the rightmost digit counts three times), 1 for odd d.
+//@ specdef w31(a map[int]int, n int, i int) int = (i <= 0) ? 0 : (w31(a, n, i-1) + (((n-i) % 2 == 0) ? 3 : 1) * (a[i-1] - 48))
+
+//@ define isDigit(c int) bool = 48 <= c && c <= 57
+
+// C08: the helper appends the digit that makes the 3-1 weighted sum (check digit weight 1) a
+// multiple of ten; it refuses exactly the empty string and strings with a non-digit.
+//@ func AddCheckSum
+//@   ensures (result1 == nil) == (len(content) >= 1 && (forall k int :: 0 <= k && k < len(content) ==> isDigit(content[k])))
+//@   ensures result1 == nil ==> len(result0) == len(content) + 1
+//@   ensures result1 == nil ==> (forall k int :: 0 <= k && k < len(content) ==> result0[k] == content[k])
+//@   ensures result1 == nil ==> isDigit(result0[len(content)])
+//@   ensures result1 == nil ==> (w31(bytes(content), len(content), len(content)) + (result0[len(content)] - 48)) % 10 == 0
+//@   ensures result1 != nil ==> len(result0) == 0
+//@   loop 1 invariant 0 <= iterpos() && iterpos() <= len(content)
+//@   loop 1 invariant forall k int :: 0 <= k && k < iterpos() ==> isDigit(content[k])
+//@   loop 1 invariant sum == w31(bytes(content), len(content), iterpos())
+//@   loop 1 invariant 0 <= sum && sum <= 27 * iterpos()
+//@   loop 1 invariant even == ((len(content) - iterpos()) % 2 == 1)
+
+// ---- the symbol as the standards draw it (independent of the library's tables, which the table
+// lemma twooffive/tables compares with the same standards)
+// element i (0..4) of digit d is wide: the 1-2-4-7-parity code
+//@ define wide25(d int, i int) bool = (i == 0) ? (d == 1 || d == 3 || d == 5 || d == 8) : ((i == 1) ? (d == 2 || d == 3 || d == 6 || d == 9) : ((i == 2) ? (d == 0 || d == 4 || d == 5 || d == 6) : ((i == 3) ? (d == 0 || d == 7 || d == 8 || d == 9) : (d == 1 || d == 2 || d == 4 || d == 7))))
+//@ define w25(d int, i int) int = wide25(d, i) ? 3 : 1
+
+// standard 2 of 5: a digit is five bars (wide = 3 modules, narrow = 1) each followed by a 1-module
+// space; so<i>(d) is where element i starts, the block is 14 modules
+//@ define so1(d int) int = w25(d, 0) + 1
+//@ define so2(d int) int = so1(d) + w25(d, 1) + 1
+//@ define so3(d int) int = so2(d) + w25(d, 2) + 1
+//@ define so4(d int) int = so3(d) + w25(d, 3) + 1
+//@ define sbit(d int, t int) bool = (t < so1(d)) ? (t < w25(d, 0)) : ((t < so2(d)) ? (t - so1(d) < w25(d, 1)) : ((t < so3(d)) ? (t - so2(d) < w25(d, 2)) : ((t < so4(d)) ? (t - so3(d) < w25(d, 3)) : (t - so4(d) < w25(d, 4)))))
+// start 11011010, stop 1101011
+//@ define sStart(j int) bool = j == 0 || j == 1 || j == 3 || j == 4 || j == 6
+//@ define sStop(k int) bool = k == 0 || k == 1 || k == 3 || k == 5 || k == 6
+//@ define sSym(a map[int]int, n int, j int) bool = (j < 8) ? sStart(j) : ((j < 8 + 14*n) ? sbit(a[(j-8)/14] - 48, (j-8) % 14) : sStop(j - 8 - 14*n))
+
+// interleaved 2 of 5: a pair (x, y) is five bars with the widths of x interleaved with five spaces
+// with the widths of y: 18 modules
+//@ define io1(x int, y int) int = w25(x, 0) + w25(y, 0)
+//@ define io2(x int, y int) int = io1(x, y) + w25(x, 1) + w25(y, 1)
+//@ define io3(x int, y int) int = io2(x, y) + w25(x, 2) + w25(y, 2)
+//@ define io4(x int, y int) int = io3(x, y) + w25(x, 3) + w25(y, 3)
+//@ define ibit(x int, y int, t int) bool = (t < io1(x, y)) ? (t < w25(x, 0)) : ((t < io2(x, y)) ? (t - io1(x, y) < w25(x, 1)) : ((t < io3(x, y)) ? (t - io2(x, y) < w25(x, 2)) : ((t < io4(x, y)) ? (t - io3(x, y) < w25(x, 3)) : (t - io4(x, y) < w25(x, 4)))))
+// start 1010, stop 11101
+//@ define iSym(a map[int]int, n int, j int) bool = (j < 4) ? (j == 0 || j == 2) : ((j < 4 + 9*n) ? ibit(a[2*((j-4)/18)] - 48, a[2*((j-4)/18)+1] - 48, (j-4) % 18) : (j - 4 - 9*n == 0 || j - 4 - 9*n == 1 || j - 4 - 9*n == 2 || j - 4 - 9*n == 4))
+
+//@ define allDigits(content string) bool = forall k int :: 0 <= k && k < len(content) ==> isDigit(content[k])
+//@ define ok25(content string, interleaved bool) bool = len(content) >= 1 && allDigits(content) && (interleaved ==> len(content) % 2 == 0)
+//@ define res25(r barcode.Barcode) *utils.base1DCode = asptr(r, "*utils.base1DCode")
+
+// C08/C10/C11: accepted exactly for digit strings (an even number of them when interleaved); the
+// result carries the text, the kind, the caller's colours and exactly the standard's modules.
+// Interleaved loop invariants: the first rune of a pair is parked in *lastRune unvalidated; if it is
+// a digit it was the single byte just before iterpos, otherwise the text is known to be refused later.
+//@ func EncodeWithColor
+//@   requires len(content) <= 50000000
+//@   ensures (result1 == nil) == ok25(content, interleaved)
+//@   ensures (result1 == nil) == (result0 != nil)
+//@   ensures result1 == nil ==> typeis(result0, "*utils.base1DCode") && res25(result0).content == content && res25(result0).color == color
+//@   ensures result1 == nil ==> res25(result0).kind == (interleaved ? barcode.Type2of5Interleaved : barcode.Type2of5)
+//@   ensures result1 == nil && !interleaved ==> res25(result0).BitList.count == 15 + 14*len(content)
+//@   ensures result1 == nil && !interleaved ==> (forall j int :: 0 <= j && j < 15 + 14*len(content) ==> res25(result0).BitList.model[j] == sSym(bytes(content), len(content), j))
+//@   ensures result1 == nil && interleaved ==> res25(result0).BitList.count == 9 + 9*len(content)
+//@   ensures result1 == nil && interleaved ==> (forall j int :: 0 <= j && j < 9 + 9*len(content) ==> res25(result0).BitList.model[j] == iSym(bytes(content), len(content), j))
+//@   loop 1 invariant 0 <= iterpos() && iterpos() <= len(content) && resBits != nil && fresh(resBits)
+//@   loop 1 invariant !interleaved ==> lastRune == nil && resBits.count == 8 + 14*iterpos() && (forall k int :: 0 <= k && k < iterpos() ==> isDigit(content[k]))
+//@   loop 1 invariant !interleaved ==> (forall j int :: 0 <= j && j < 8 + 14*iterpos() ==> resBits.model[j] == sSym(bytes(content), len(content), j))
+//@   loop 1 invariant interleaved && lastRune == nil ==> iterpos() % 2 == 0 && (forall k int :: 0 <= k && k < iterpos() ==> isDigit(content[k]))
+//@   loop 1 invariant interleaved && lastRune != nil ==> fresh(lastRune)
+//@   loop 1 invariant interleaved && lastRune != nil && isDigit(*lastRune) ==> iterpos() % 2 == 1 && content[iterpos()-1] == *lastRune && (forall k int :: 0 <= k && k < iterpos() ==> isDigit(content[k]))
+//@   loop 1 invariant interleaved && lastRune != nil && !isDigit(*lastRune) ==> !allDigits(content)
+//@   loop 1 invariant interleaved ==> 4 <= resBits.count && resBits.count <= 4 + 9*iterpos()
+//@   loop 1 invariant interleaved && (lastRune == nil || isDigit(*lastRune)) ==> resBits.count == 4 + 18*(iterpos()/2)
+//@   loop 1 invariant interleaved && (lastRune == nil || isDigit(*lastRune)) ==> (forall j int :: 0 <= j && j < 4 + 18*(iterpos()/2) ==> resBits.model[j] == iSym(bytes(content), len(content), j))
+
+// the plain variant: the same symbol, black on white
+//@ func Encode
+//@   requires len(content) <= 50000000
+//@   ensures (result1 == nil) == ok25(content, interleaved)
+//@   ensures (result1 == nil) == (result0 != nil)
+//@   ensures result1 == nil ==> typeis(result0, "*utils.base1DCode") && res25(result0).content == content && res25(result0).color == barcode.ColorScheme16
+//@   ensures result1 == nil ==> res25(result0).kind == (interleaved ? barcode.Type2of5Interleaved : barcode.Type2of5)
+//@   ensures result1 == nil && !interleaved ==> res25(result0).BitList.count == 15 + 14*len(content)
+//@   ensures result1 == nil && !interleaved ==> (forall j int :: 0 <= j && j < 15 + 14*len(content) ==> res25(result0).BitList.model[j] == sSym(bytes(content), len(content), j))
+//@   ensures result1 == nil && interleaved ==> res25(result0).BitList.count == 9 + 9*len(content)
+//@   ensures result1 == nil && interleaved ==> (forall j int :: 0 <= j && j < 9 + 9*len(content) ==> res25(result0).BitList.model[j] == iSym(bytes(content), len(content), j))
